@@ -118,6 +118,8 @@ void DeadRegion(const void*, std::size_t, const char*) {
 }
 void ClearDeadRegions() {
 }
+void SharedAccess(const void*, bool, std::uint64_t) {
+}
 void Fold(std::uint64_t) {
 }
 std::uint64_t AllocCount() {
